@@ -38,7 +38,17 @@ class History:
                 if why:
                     raise Fail(why, after=where)
 
+    mode = None        # "round": a slot is either nothing or one fair round of the three engine steps (coarser, 2 options instead of 4)
+
     def slots(self, n):
+        if self.mode == "round":
+            for j in range(n):
+                s = self.e.choose("round", 2)
+                self.hist.append("r%d" % s)
+                if s:
+                    for o in (0, 1, 2):
+                        self.step(o)
+            return
         for j in range(n):
             s = self.e.choose("slot", 4)
             self.hist.append("s%d" % s)
